@@ -26,6 +26,11 @@ pub trait ZooMsg: Flat + FlatDefault + 'static {
     fn emplace_val<'b>(bytes: &'b mut [u8], v: &Val) -> Result<&'b mut Self, Error>;
     /// Deep read through the safe accessors.
     fn read(&self) -> Val;
+    /// The documented default state (what `default_in_place` must produce), where the adapter
+    /// states it; None = the planner takes the read-back as it is.
+    fn default_val() -> Option<Val> {
+        None
+    }
     /// Builder operations on a live value (push / pop / truncate / element writes); decisions
     /// come from `g`.  Default: none.
     fn tweak(&mut self, _g: &mut Gen) {}
@@ -194,6 +199,9 @@ pub enum TestMsg {
 
 impl ZooMsg for TestMsg {
     const NAME: &'static str = "TestMsg";
+    fn default_val() -> Option<Val> {
+        Some(Val::V(0, vec![]))
+    }
     fn gen(g: &mut Gen) -> Val {
         match g.weighted(&[1, 2, 4]) {
             0 => Val::V(0, vec![]),
@@ -316,6 +324,9 @@ pub enum TagStr {
 
 impl ZooMsg for TagStr {
     const NAME: &'static str = "TagStr";
+    fn default_val() -> Option<Val> {
+        Some(Val::V(0, vec![]))
+    }
     fn gen(g: &mut Gen) -> Val {
         match g.weighted(&[1, 2, 4]) {
             0 => Val::V(0, vec![]),
@@ -369,7 +380,14 @@ impl ZooMsg for VecU8 {
         Val::L((0..n).map(|_| Val::I(g.int(8, false))).collect())
     }
     fn emplace_val<'b>(bytes: &'b mut [u8], v: &Val) -> Result<&'b mut Self, Error> {
-        Self::new_in_place(bytes, vec::FromIterator(v.list().iter().map(|x| x.int() as u8)))
+        // short lists go through the array emplacers (`flat_vec![..]`), longer ones through the iterator one
+        let l = v.list();
+        match l.len() {
+            0 => Self::new_in_place(bytes, flatty::flat_vec![]),
+            1 => Self::new_in_place(bytes, flatty::flat_vec![l[0].int() as u8]),
+            2 => Self::new_in_place(bytes, flatty::flat_vec![l[0].int() as u8, l[1].int() as u8]),
+            _ => Self::new_in_place(bytes, vec::FromIterator(l.iter().map(|x| x.int() as u8))),
+        }
     }
     fn read(&self) -> Val {
         rd_vec(self, |x| Val::I(*x as i128))
@@ -444,7 +462,13 @@ impl ZooMsg for VecI32 {
         Val::L((0..n).map(|_| Val::I(g.int(32, true))).collect())
     }
     fn emplace_val<'b>(bytes: &'b mut [u8], v: &Val) -> Result<&'b mut Self, Error> {
-        Self::new_in_place(bytes, vec::FromIterator(v.list().iter().map(|x| x.int() as i32)))
+        let l = v.list();
+        match l.len() {
+            0 => Self::new_in_place(bytes, flatty::flat_vec![]),
+            1 => Self::new_in_place(bytes, flatty::flat_vec![l[0].int() as i32]),
+            3 => Self::new_in_place(bytes, flatty::flat_vec![l[0].int() as i32, l[1].int() as i32, l[2].int() as i32]),
+            _ => Self::new_in_place(bytes, vec::FromIterator(l.iter().map(|x| x.int() as i32))),
+        }
     }
     fn read(&self) -> Val {
         rd_vec(self, |x| Val::I(*x as i128))
@@ -621,6 +645,9 @@ pub enum PEnum {
 
 impl ZooMsg for PEnum {
     const NAME: &'static str = "PEnum";
+    fn default_val() -> Option<Val> {
+        Some(Val::V(0, vec![]))
+    }
     fn gen(g: &mut Gen) -> Val {
         match g.weighted(&[1, 2, 4]) {
             0 => Val::V(0, vec![]),
@@ -723,6 +750,9 @@ pub enum FixedE {
 
 impl ZooMsg for FixedE {
     const NAME: &'static str = "FixedE";
+    fn default_val() -> Option<Val> {
+        Some(Val::V(0, vec![]))
+    }
     fn gen(g: &mut Gen) -> Val {
         match g.weighted(&[1, 2, 2]) {
             0 => Val::V(0, vec![]),
@@ -765,6 +795,9 @@ pub enum Nest {
 
 impl ZooMsg for Nest {
     const NAME: &'static str = "Nest";
+    fn default_val() -> Option<Val> {
+        Some(Val::V(0, vec![]))
+    }
     fn gen(g: &mut Gen) -> Val {
         match g.weighted(&[1, 3, 3]) {
             0 => Val::V(0, vec![]),
@@ -832,6 +865,9 @@ pub enum Pad3 {
 
 impl ZooMsg for Pad3 {
     const NAME: &'static str = "Pad3";
+    fn default_val() -> Option<Val> {
+        Some(Val::V(0, vec![]))
+    }
     fn gen(g: &mut Gen) -> Val {
         match g.weighted(&[1, 3, 3, 2]) {
             0 => Val::V(0, vec![]),
